@@ -82,10 +82,13 @@ def check_trajectory(fname, b, result):
     if t is None:
         return
     R0 = b.get('initial_recovereds')
-    try:
-        hasR0 = R0 is not None and len(list(R0)) > 0
-    except TypeError:
-        hasR0 = R0 is not None
+    if CONTEXT.get('R0_expected') is not None:
+        hasR0 = len(CONTEXT['R0_expected']) > 0
+    else:
+        try:
+            hasR0 = R0 is not None and not hasattr(R0, '__next__') and len(list(R0)) > 0
+        except TypeError:
+            hasR0 = R0 is not None
     m = mode + ('+R0' if hasR0 else '')
     L = len(t)
     if any(len(D[s]) != L for s in sts):
@@ -178,6 +181,8 @@ def check_start_row(fname, b, result):
     EVALS['start:' + fname] += 1
     I0 = [I0] if G.has_node(I0) else list(I0)
     R0 = b.get('initial_recovereds')
+    if CONTEXT.get('R0_expected') is not None and (fname == CONTEXT.get('R0_expected_for') or hasattr(R0, '__next__')):
+        R0 = list(CONTEXT['R0_expected'])       # the argument itself may be a one-shot iterator that the call has consumed
     R0 = [] if R0 is None else ([R0] if (not isinstance(R0, (list, set, range, np.ndarray)) and G.has_node(R0)) else list(R0))   # same rule as the library: a node of G is a single node
     N = G.order()
     mode, t, D, sts = _series(fname, model, b, result)
